@@ -111,7 +111,7 @@ def run_case(case):
             # the calendar-to-thermal conversion is written onto the user's Crop (see known findings); with another window's thermal
             # stage lengths on it the crop may also fail the documented degree-day check of this window
             sig += swg
-        elif thermal_derived and sig.startswith("C11:differs") and any("@window" in t for t in state["trace"]):
+        elif thermal_derived and (sig.startswith("C11:differs") or sig.startswith("C11:raises-on-reuse:AssertionError")) and any("@window" in t for t in state["trace"]):
             # thermal-time crop, harvest date derived by the model, and an earlier use of the same Crop for another window
             sig += ":thermal-crop-derived-harvest-date-from-other-window"
         if not any(v["sig"] == sig for v in res["violations"]):
